@@ -59,6 +59,9 @@ METHODS = [
       caps=[("crypt_sunmd5_rn", r"i < nrounds")], max_s=16, max_p=8),
     M("sha1crypt", "crypt_sha1crypt_rn", "$sha1$", ["crypt-pbkdf1-sha1.c"], ["M_HMAC_SHA1"], 28,
       caps=[("crypt_sha1crypt_rn", r"i < iterations")], max_s=20, max_p=8),
+    # iteration count fixed (no symbolic digits): the salt grammar
+    M("sha1crypt-salt", "crypt_sha1crypt_rn", "$sha1$24680$", ["crypt-pbkdf1-sha1.c"], ["M_HMAC_SHA1"], 28,
+      caps=[("crypt_sha1crypt_rn", r"i < iterations")], max_s=16, max_p=8),
     M("nt", "crypt_nt_rn", "$3$", ["crypt-nthash.c"], ["M_MD4"], 32, alpha=1, max_s=8, can_fail=False),
     M("bigcrypt", "crypt_bigcrypt_rn", "", ["crypt-des.c"], ["M_DES"], 11, sep=0, max_s=24,
       precond=DES_PRE, max_p=20),
@@ -82,6 +85,9 @@ BY["scrypt"].must_reject = ("{ _Bool term = 0; for (size_t j = 0; j < MAX_S; j++
 # only; parameter digits are base-64 (doc/crypt.5; yescrypt_r requires decode64 to consume the field)
 BY["yescrypt"].must_reject = ("{ int fld = 0; for (size_t j = 0; j < MAX_S; j++) if (j < in_slen) { char c = setting[PLEN + j]; "
                               "if (c == '$') fld++; else if (fld <= 1 && !alpha_ok((unsigned char)c)) bad = 1; } }")
+# sha1crypt: the salt is 1..64 base-64 characters (doc/crypt.5; the F1 fix): a longer run is refused
+BY["sha1crypt-salt"].must_reject = ("{ size_t run = 0; for (size_t j = 0; j < MAX_S; j++) if (j < in_slen && run == j && alpha_ok((unsigned char)setting[PLEN + j])) run = j + 1; "
+                                   "if (run == 0 || run > 64) bad = 1; }")
 BF_UNIT = ("crypt-bcrypt.c", ["__CPROVER_file_local_crypt_bcrypt_c_BF_crypt"], {"export_static": True})
 BF_PRE = ("__CPROVER_assume(in_slen >= 25);")     # prefix + cost + 22 salt characters at least
 for _n, _fn, _p in (("bcrypt", "crypt_bcrypt_rn", "$2b$"), ("bcrypt_a", "crypt_bcrypt_a_rn", "$2a$"),
